@@ -1,7 +1,8 @@
 (* C11 correspondence evaluator: runs the model on the cases the harness produced on the real code and reports, per case,
    (a) codes of variant-independent disagreements (1 row evaluation, 3 hash function, 4 span of a created group,
-       5 groups selected by the time range) and
-   (b) a bit mask over the 32 model variants (use_cache, per_group_key, v_or, v_and, v_reset) saying which of them
+       5 groups selected by the time range, 6 span / key ranges of the group created by re-sharding, 7 key ranges of a
+       group created in a range-sharded policy) and
+   (b) a bit mask over the 64 model variants (hint range repair, use_cache, per_group_key, v_or, v_and, v_reset) saying which of them
        reproduce the implementation: the shard every row of every write batch was mapped to (batch_step with the group /
        measurement / shard-key caches), getConditionTags' output (as a set of tag sets) and the SET of shards
        TargetShards returned for every selected group. *)
@@ -20,13 +21,17 @@ Record cpoint := {
 Record ccase := {
   cc_msts : list mcfg;                   (* every m_cfg carries the catalogue after all writes in c_groups *)
   cc_qm : nat;                           (* measurement the query reads *)
-  cc_born : list Z;                      (* per group: index of the point whose routing created it, -1 = pre-existing *)
+  cc_born : list Z;                      (* per group: 2i = created by the routing of point i, -2 = pre-existing,
+                                            2i-1 = created by Data.ReSharding before the batch starting at point i *)
+  cc_reshard : option (Z * list str);    (* split time and split points of the Data.ReSharding of this case *)
   cc_cond : option expr;
   cc_points : list cpoint;
   cc_condtags : option (list tagset);
   cc_tmin : Z; cc_tmax : Z;
   cc_qgroups : list N;
-  cc_targets : list (N * list N)
+  cc_targets : list (N * list N);
+  cc_hints : list (bool * option (list (N * list N)))   (* the same query with a series hint: (specific_series?, shards
+                                                           consulted per selected group; None = mapMstShards failed) *)
 }.
 
 Definition dummy_cfg : cfg :=
@@ -61,10 +66,10 @@ Definition with_groups (m : mcfg) (gs : list group) : mcfg :=
 (* catalogue seen by the routing of point i: the groups that existed before, plus - when none of them (nor the cached
    one) takes the timestamp - the group created for this point, whose span must be [trunc(t,d), +d) clipped *)
 Definition visible_groups (c : ccase) (cache : option group) (i : Z) (t : Z) : list group * bool :=
-  let before := map fst (filter (fun gb => snd gb <? i) (with_born c)) in
+  let before := map fst (filter (fun gb => snd gb <? 2 * i) (with_born c)) in
   match pick_group cache before t with
   | Some _ => (before, true)
-  | None => match find (fun gb => snd gb =? i) (with_born c) with
+  | None => match find (fun gb => snd gb =? 2 * i) (with_born c) with
             | Some (g, _) =>
                 let sp := span_of t (c_dur (m_cfg (qmst c))) in
                 (before ++ [g], (g_start g =? fst sp) && (g_end g =? snd sp) && negb (g_deleted g))
@@ -102,6 +107,30 @@ Fixpoint batches_ok (use_cache : bool) (c : ccase) (st : bstate) (i : Z) (cps : 
       (opt_pair_eqb got (cp_routed cp) && fst rest, snd vg && snd rest)
   end.
 
+(* shape of the groups of a range-sharded policy: a group created by the routing of a point has one shard owning
+   everything (first group) or the key ranges of the newest group existing then (createShards); the group created by
+   re-sharding is [split+1, end of the newest group) with the ranges the split points define (CreateShardGroupWithBounds) *)
+Definition range_policy (c : ccase) : bool := match c_typ (m_cfg (qmst c)) with Range => true | Hash => false end.
+Definition ranges_eqb (a b : list (str * str)) : bool := list_eqb pair_eqb a b.
+Definition group_shapes_ok (c : ccase) : bool * bool :=
+  let check := fun gb : group * Z =>
+    let '(g, born) := gb in
+    let before := map fst (filter (fun x => snd x <? born) (with_born c)) in
+    if born <? 0 then (true, true)
+    else if Z.even born then (ranges_eqb (shard_ranges g) (created_ranges before), true)
+    else (true,
+          match cc_reshard c with
+          | Some (split, bounds) =>
+              match resharded_span before split with
+              | Some (st, en) => (g_start g =? st) && (g_end g =? en) && ranges_eqb (shard_ranges g) (ranges_of [] bounds)
+              | None => false
+              end
+          | None => false
+          end) in
+  if range_policy c
+  then fold_right (fun gb acc => let r := check gb in (fst r && fst acc, snd r && snd acc)) (true, true) (with_born c)
+  else (true, true).
+
 Definition point_codes (c : ccase) (cp : cpoint) : list N :=
   let p := to_point cp in
   (if Bool.eqb (eval_cond (m_cfg (mst_of c (cp_m cp))) (cc_cond c) p) (cp_sat cp) then [] else [1%N])
@@ -131,26 +160,54 @@ Definition targets_ok (v : variant) (per_group_key : bool) (c : ccase) : bool :=
              | None => false
              end) qs.
 
-(* bit index = 16*use_cache_repaired + 8*per_group_key + 4*v_or + 2*v_and + v_reset  (use_cache_repaired = the shard key is
+Definition hints_ok (v : variant) (per_group_key : bool) (range_rep : bool) (c : ccase) : bool :=
+  let m := qmst c in
+  let qs := query_groups (m_cfg m) (cc_tmin c) (cc_tmax c) in
+  forallb (fun h : bool * option (list (N * list N)) =>
+             match snd h with
+             | None => false
+             | Some tg =>
+                 forallb (fun g =>
+                            let gid := if per_group_key then g_id g else match qs with g0 :: _ => g_id g0 | [] => g_id g end in
+                            match find (fun x => N.eqb (fst x) (g_id g)) tg with
+                            | Some (_, ids) =>
+                                seteq_b N.eqb (map s_id (target_hint_kind xxh64 (fst h) range_rep v (cfg_at m gid) g (cc_cond c))) ids
+                            | None => false
+                            end) qs
+             end) (cc_hints c).
+
+(* bit index = 32*hint_range_repaired + 16*use_cache_repaired + 8*per_group_key + 4*v_or + 2*v_and + v_reset  (use_cache_repaired = the shard key is
    looked up for every row) *)
 Definition mask_of (c : ccase) : N :=
   let w_cur := fst (batches_ok true c b_empty 0 (cc_points c)) in
   let w_rep := fst (batches_ok false c b_empty 0 (cc_points c)) in
+  (* shared and short-circuited: getConditionTags per reading of OR/AND/reset, TargetShards per (reading, group key), the
+     hinted queries per (reading, group key, hint range repair), the write batches once per reading of the batch cache *)
   fold_left N.add
-    (flat_map (fun cf : bool => flat_map (fun pk : bool => flat_map (fun vo : bool => flat_map (fun va : bool => map (fun vr : bool =>
+    (flat_map (fun vo : bool => flat_map (fun va : bool => flat_map (fun vr : bool =>
        let v := {| v_or := vo; v_and := va; v_reset := vr |} in
-       let okw := if cf then w_rep else w_cur in
-       if okw && condtags_ok v c && targets_ok v pk c
-       then N.shiftl 1%N ((if cf then 16 else 0) + (if pk then 8 else 0) + (if vo then 4 else 0) + (if va then 2 else 0) + (if vr then 1 else 0))%N
-       else 0%N) [false; true]) [false; true]) [false; true]) [false; true]) [false; true])
+       if condtags_ok v c then
+         flat_map (fun pk : bool =>
+           if targets_ok v pk c then
+             flat_map (fun rr : bool =>
+               if hints_ok v pk rr c then
+                 map (fun cf : bool =>
+                   if (if cf then w_rep else w_cur)
+                   then N.shiftl 1%N ((if rr then 32 else 0) + (if cf then 16 else 0) + (if pk then 8 else 0) + (if vo then 4 else 0) + (if va then 2 else 0) + (if vr then 1 else 0))%N
+                   else 0%N) [false; true]
+               else []) [false; true]
+           else []) [false; true]
+       else []) [false; true]) [false; true]) [false; true])
     0%N.
 
-Definition full_mask : N := 4294967295%N.
+Definition full_mask : N := 18446744073709551615%N.
 
 Definition check_case (c : ccase) : list N * N :=
   (flat_map (point_codes c) (cc_points c)
    ++ (if snd (batches_ok false c b_empty 0 (cc_points c)) then [] else [4%N])
-   ++ (if list_eqb N.eqb (map g_id (query_groups (m_cfg (qmst c)) (cc_tmin c) (cc_tmax c))) (cc_qgroups c) then [] else [5%N]),
+   ++ (if list_eqb N.eqb (map g_id (query_groups (m_cfg (qmst c)) (cc_tmin c) (cc_tmax c))) (cc_qgroups c) then [] else [5%N])
+   ++ (if snd (group_shapes_ok c) then [] else [6%N])
+   ++ (if fst (group_shapes_ok c) then [] else [7%N]),
    mask_of c).
 
 Fixpoint mismatches_from (k : N) (cs : list ccase) : list (N * list N * N) :=
